@@ -143,14 +143,19 @@ Docs == { << B("r", ls, b) >> : ls \in Labels, b \in Bodies }
 Cursors == IF Mode = "dep" THEN { [kind |-> "none", path |-> <<>>, prefix |-> "", index |-> 0] } ELSE
   IF Mode = "label" THEN { [kind |-> "label", path |-> <<1>>, prefix |-> p, index |-> i] : p \in {"", "a", "i", "z", "x", "in"}, i \in {0, 1} } ELSE
   { [kind |-> "gap", path |-> <<1>>, prefix |-> p, index |-> 0] : p \in (IF Quick THEN {"", "d"} ELSE {"", "a", "d", "c", "dy"}) }
+  \cup { [kind |-> "type", path |-> <<1, j>>, prefix |-> p, index |-> 0] : j \in 1..MaxItems, p \in {"", "d"} }
   \cup { [kind |-> "label", path |-> <<1>>, prefix |-> p, index |-> 0] : p \in (IF Quick THEN {""} ELSE {"", "x"}) }
 
 \* a label cursor sits behind the typed prefix of the label it is in
+TypeCursorFits == cur.kind = "type" => /\ cur.path[2] <= Len(doc[1].body) /\ doc[1].body[cur.path[2]].k = "block"
+                                      /\ LET t == doc[1].body[cur.path[2]].type IN
+                                           \* strictly inside the type (behind the whole type the parser no longer sees the cursor in it)
+                                           cur.prefix = "" \/ (cur.prefix = "d" /\ t \in {"dk", "dynamic"})
 CursorFits == cur.kind = "label" => /\ cur.index + 1 <= Len(doc[1].labels)
                                     /\ LET t == doc[1].labels[cur.index + 1] IN
                                          \/ cur.prefix = "" \/ (cur.prefix = "a" /\ t \in {"aws", "a"}) \/ (cur.prefix = "i" /\ t \in {"instance", "i"})
                                          \/ (cur.prefix = "in" /\ t = "instance") \/ (cur.prefix = "z" /\ t = "zone") \/ (cur.prefix = "x" /\ t = "x")
-Init == schema \in {Root(r) : r \in RSchemas} /\ doc \in Docs /\ cur \in Cursors /\ CursorFits
+Init == schema \in {Root(r) : r \in RSchemas} /\ doc \in Docs /\ cur \in Cursors /\ CursorFits /\ TypeCursorFits
 Next == UNCHANGED vars
 Spec == Init /\ [][Next]_vars
 
